@@ -14,7 +14,8 @@ EXPLANATION = (
     "exactly one saturating_sub(1) on the remaining-sample counter per iteration. R03.4 the counter is initialised from "
     "sample_count.unwrap_or(DEFAULT_SAMPLE_COUNT) at both sites and DEFAULT_SAMPLE_COUNT == 100. R03.5 the reported "
     "sample_count derives only from time_samples.len() and iter_count only from sample_size x len. One call per index "
-    "per round is C06/R06.1; the loop condition is C04/R04.1.")
+    "per round is C06/R06.1; the loop condition is C04/R04.1."
+    ' R03.5 also: iter_count widens both factors to 64 bits before multiplying. R03.6 every reported run starts from an empty sample store: the BenchContext wrapped by Bencher::new and read by compute_stats is built by the single constructor (SampleCollection::default(), did_run = false) in the same loop iteration as the run, or emptied by a reset call before each run.')
 NOT_DECIDED = ["the closed form s*T*ceil(n/T) itself (follows from R03.3 + R04.1 by induction; not mechanised)",
                "call counts under interleavings (C06)"]
 
